@@ -1249,7 +1249,12 @@ def resolve_unversioned_parent(tt, path_tree, c_type, trans_id):
     if path_tree and path_tree.path2id("") == file_id:
         # This is the root entry, skip it
         return
-    tt.version_file(trans_id, file_id=file_id)
+    if file_id is None:
+        # The directory never had a file id (it is new, or unversioned in the
+        # tree): let the transform give it a fresh one.
+        tt.version_file(trans_id, source=(tt._tree, None))
+    else:
+        tt.version_file(trans_id, file_id=file_id)
     yield (c_type, "Versioned directory", trans_id)
 
 
